@@ -248,7 +248,7 @@ def m_int(*args, **kw):
             raise ValueError("cannot convert float NaN to integer")
         if ex.decide(z3.fpIsInf(x.f)):
             raise OverflowError("cannot convert float infinity to integer")
-        return SymInt(symx.double_to_int_term(x.f))
+        return symx.double_to_int(x.f)
     if is_proxy(x):
         raise TypeError("int() argument must be a string, a bytes-like object or a real number, not '%s'"
                         % pytype_of(x).__name__)
